@@ -319,7 +319,12 @@ class DFA(fa.FA):
         )
 
     def _get_trap_state_id(self) -> DFAStateT:
-        return next(x for x in count(-1, -1) if x not in self.states)
+        # Also avoid names that only occur as keys of the transition table
+        return next(
+            x
+            for x in count(-1, -1)
+            if x not in self.states and x not in self.transitions
+        )
 
     def to_complete(self, trap_state: Optional[DFAStateT] = None) -> Self:
         """
